@@ -442,6 +442,19 @@ Definition vcat {X} (ms : list (list (list X))) : list (list X) := concat ms.
 Definition hcat {X} (n : nat) (ms : list (list (list X))) : list (list X) :=
   map (fun r => concat (map (fun m => nth r m []) ms)) (seq 0 n).
 
+(* apply f to the j-th element (nothing happens for j out of range) *)
+Definition upd_nth {X} (f : X -> X) (j : nat) (l : list X) : list X :=
+  firstn j l ++ match skipn j l with [] => [] | x :: r => f x :: r end.
+
+(* nested-list reference of fillna_col: in column j every missing scalar becomes `fill` *)
+Definition fill_cells {X} (is_na : X -> bool) (fill : X) (j : nat) (m : list (list (list X))) : list (list (list X)) :=
+  map (upd_nth (map (fill_na X is_na fill)) j) m.
+
+(* nested-list reference of to_dense: every cell followed by the fill value only *)
+Definition pad_cells {X} (fill : X) (m : list (list (list X))) : list (list (list X)) :=
+  let L := list_max (map (@length X) (concat m)) in
+  map (map (fun cell => cell ++ repeat fill (L - length cell))) m.
+
 (* cat of canonical containers is the canonical container of the nested-list cat *)
 Definition canon_mnt_cat (cs : list nat) (ms : list (cellmat payload)) (dim : nat) : bool :=
   let xs := map (fun p => mnt_of_cells (fst p) (snd p)) (combine cs ms) in
